@@ -24,6 +24,8 @@ def run(ctx):
     ctx.rule("R3.3", "dirtiness routine: Dirty after the stamp read only when checksum().is_empty(); otherwise NeedTargets carrying the file")
     ctx.rule("R3.4", "BuildJob::start: NeedTargets => start_deps_unlocked unless no_oob (then start_self); should_build collapses NeedTargets([self]) to Dirty")
     ctx.rule("R3.5", "redo-unlocked re-runs the decision for the primary target")
+    ctx.rule("R3.7", "REDO_NO_OOB is consumed by Env::inherit (reset before every Ok return): builds nested below an out-of-band rebuild use the normal cut-off again")
+    ctx.rule("R3.8", "an uncertain (NeedTargets) verdict of a dependency is accumulated, for plain and for checksummed parents alike; Clean only if nothing uncertain was collected")
     ctx.rule("R3.6", "redo-unlocked: a non-success status of either phase ends the process with that status before the next phase")
 
     St = prog.one(r"@bin::stamp::run")
@@ -148,6 +150,18 @@ def run(ctx):
     ctx.ob("R3.4", "should_build|NeedTargets([self])=>Dirty", ok, where=sb.span, detail="a single-element NeedTargets naming the target itself collapses to Dirty (ids compared)" if ok else "NeedTargets([self]) is not collapsed: the target would delegate to redo-unlocked for ever")
 
     primary_target_rule(ctx, "R3.5")
+    dirt.nonclean_propagates(ctx, "R3.8")
+    from rules.C06 import env_setters, env_set_value
+    inh = prog.one(r"env::Env::inherit")
+    iba = BA.of(inh)
+    clears = [i for (b, i) in env_setters(prog, "REDO_NO_OOB") if b.key == inh.key and env_set_value(b, i) == ""]
+    oks = [i for i, _, st_ in anchors.agg_sites(inh, r"core::result::Result") if st_["rv"]["variant"] == "Ok"]
+    p_ = iba.path([0], oks, avoid=frozenset(clears), incl=True) if oks else [0]
+    ctx.ob("R3.7", "Env::inherit|REDO_NO_OOB-not-inherited", bool(clears) and p_ is None, where=inh.span,
+           detail="REDO_NO_OOB is reset before every Ok return of Env::inherit" if clears and p_ is None else
+           "REDO_NO_OOB leaks to subprocesses: every redo-ifchange below an out-of-band rebuild turns an uncertain verdict into a rebuild, defeating the checksum cut-off")
+    setters = sorted({b.key for (b, i) in env_setters(prog, "REDO_NO_OOB") if env_set_value(b, i) != ""})
+    ctx.ob("R3.7", "who-sets-REDO_NO_OOB", setters == ["@bin::unlocked::run"], detail="bodies setting a non-empty REDO_NO_OOB: %s" % setters)
 
     # ---- R3.6
     U = prog.one(r"@bin::unlocked::run")
